@@ -180,13 +180,36 @@ func c12SearchDriver(s *propSpec, b *build, a *agg) {
 // makeRefRaw runs a worker in -mode ref and returns the "extra" payload of its
 // ref record as raw JSON (used by C13, whose table has another shape than C12's).
 func makeRefRaw(bin string, race bool, b *build, s *propSpec) ([]byte, string) {
-	args := append(baseArgs(s, b), "-mode", "ref")
-	res := runWorker(workerJob{bin: bin, race: race, procs: 1, args: args, timeout: 20 * time.Minute})
-	for _, lr := range res.lines {
-		if lr.T == "ref" && lr.Extra != nil {
-			jb, _ := json.Marshal(lr.Extra)
-			return jb, ""
+	// A module source whose sequential print kills or blocks the reference process
+	// is left out of the table (the search still runs on it and has its own
+	// verdicts); the pass is repeated without it.
+	var skip []string
+	for attempt := 0; ; attempt++ {
+		progress := filepath.Join(scratch, "progress-ref")
+		os.Remove(progress)
+		args := append(baseArgs(s, b), "-mode", "ref", "-progress", progress)
+		if len(skip) > 0 {
+			args = append(args, "-skip", strings.Join(skip, ","))
 		}
+		res := runWorker(workerJob{bin: bin, race: race, procs: 1, args: args, timeout: 6 * time.Minute})
+		for _, lr := range res.lines {
+			if lr.T == "ref" && lr.Extra != nil {
+				jb, _ := json.Marshal(lr.Extra)
+				return jb, ""
+			}
+		}
+		herr := fmt.Sprintf("reference worker produced no table (exit %d): %s", res.exitCode, firstLines(res.stderr, 20))
+		if attempt >= 8 {
+			return nil, herr
+		}
+		pb, err := os.ReadFile(progress)
+		if err != nil {
+			return nil, herr
+		}
+		idx := strings.TrimSpace(string(pb))
+		if _, err := strconv.Atoi(idx); err != nil {
+			return nil, herr
+		}
+		skip = append(skip, idx)
 	}
-	return nil, fmt.Sprintf("reference worker produced no table (exit %d): %s", res.exitCode, firstLines(res.stderr, 20))
 }
